@@ -12,7 +12,7 @@ pub struct C20;
 const DS: [u32; 6] = [0, 1, 0x7FFF_FFFF, 0x8000_0000, 0x8000_0001, 0xFFFF_FFFF];
 const BLOCK_BITS: u32 = 22;
 const BLOCKS_PER_D: u64 = 1 << (32 - BLOCK_BITS);
-const STRIDE: u64 = 127;
+const STRIDE: u64 = 17;
 const QUICK_SEGS: u64 = 16;
 
 const CLAUSES: [&str; 12] = [
@@ -149,7 +149,7 @@ fn grid_values(rng: &mut Rng) -> Vec<u32> {
 
 impl C20 {
     fn random_cases(tier: Tier) -> u64 {
-        tier.pick(160, 1600)
+        tier.pick(1600, 16_000)
     }
     fn exhaustive_cases(tier: Tier) -> u64 {
         tier.pick(6 * QUICK_SEGS, 6 * BLOCKS_PER_D)
@@ -161,7 +161,7 @@ impl Check for C20 {
         "C20"
     }
     fn plan(&self, tier: Tier) -> Plan {
-        let mut p = Plan::new(1 + Self::exhaustive_cases(tier) + Self::random_cases(tier), tier.pick(40.0, 900.0));
+        let mut p = Plan::new(1 + Self::exhaustive_cases(tier) + Self::random_cases(tier), tier.pick(40.0, 600.0));
         p.mandatory = 1 + Self::exhaustive_cases(tier);
         p.cpu_budget_s = 60.0;
         p
@@ -255,7 +255,7 @@ impl Check for C20 {
         out.count("random_pairs", n);
     }
     fn rule(&self) -> String {
-        "pairs (a, d) of u32: a boundary grid (0,1,2, 2^31-2..2^31+2, 2^32-3..2^32-1, 2^16, 2^24 neighbours, 64 seeded values) squared; every a in 0..2^32 (thorough) or every 127th a from a seeded start (quick) for each d in {0,1,2^31-1,2^31,2^31+1,2^32-1}; uniform and boundary-biased random pairs. Each pair evaluates all 12 clauses (add/sub exact and inverse, Timestamp vs u32 operand, eq vs cmp, antisymmetry, partial_cmp, ahead/behind order, every u32 comparison operator in both operand orders). distinct_nontrivial counts distinct (class of a, class of d, wraps?) cells observed, classes being the 12 boundary intervals of u32.".to_string()
+        "pairs (a, d) of u32: a boundary grid (0,1,2, 2^31-2..2^31+2, 2^32-3..2^32-1, 2^16, 2^24 neighbours, 64 seeded values) squared; every a in 0..2^32 (thorough) or every 17th a from a seeded start (quick) for each d in {0,1,2^31-1,2^31,2^31+1,2^32-1}; uniform and boundary-biased random pairs. Each pair evaluates all 12 clauses (add/sub exact and inverse, Timestamp vs u32 operand, eq vs cmp, antisymmetry, partial_cmp, ahead/behind order, every u32 comparison operator in both operand orders). distinct_nontrivial counts distinct (class of a, class of d, wraps?) cells observed, classes being the 12 boundary intervals of u32.".to_string()
     }
     fn assumptions(&self) -> Vec<String> {
         vec![
